@@ -411,7 +411,8 @@ def stream_setters(rng, tier):
     """C05: one setter per line on bounded-exhaustive buffers, plus random structured ones"""
     refs = small_refs() if tier == "thorough" else [s for s in exhaustive("a:/?#.", 3)] + \
         ["a://", "s://h", "s://h/a", "//h/a?q#f", "s:a:b", "a:b/c", "s:/a//b", "s://h//a", "aaa:@:",
-         "s:?q", "s:#f", "//h?q", "//@:", "s://u@h:1/p?q#f", "/a:b", "./a:b", "s:/.//a"]
+         "s:?q", "s:#f", "//h?q", "//@:", "s://u@h:1/p?q#f", "/a:b", "./a:b", "s:/.//a",
+         "s://h:/old?q#f", "//h:/old#f", "s://h:", "//u@h:?q", "s://[::1]:/p", "//h:", "s://h:?q"]
     for b in refs:
         for op, vals in SETTER_VALUES.items():
             for v in vals:
@@ -533,6 +534,19 @@ def stream_pathmut(rng, tier):
                 yield "hist u path %s pm[%s;%s]" % (hx(p), o1, o2)
                 if tier == "thorough":
                     yield "hist u ref %s pm[%s;%s]" % (hx("//h" + ("/" + p if p and not p.startswith("/") else p)), o1, o2)
+    # two and three edits through one handle starting from (or passing through) the shield states,
+    # in place behind an authority with something after the path, and stand-alone
+    shields = ["/./", "//a", "/.//a", "/.", "./", ".//a", "/", "", "//", "/.//", "./a:b"]
+    steps = ["push:" + hx("a"), "push:" + hx(""), "pop", "push:" + hx("a:b"), "spush:" + hx(".."), "norm", "clear"]
+    for p in shields:
+        for o1 in steps:
+            for o2 in steps:
+                yield "hist u path %s pm[%s;%s]" % (hx(p), o1, o2)
+                if p.startswith("/") or p == "":
+                    yield "hist u ref %s pm[%s;%s]" % (hx("s://h" + p + "?query#frag"), o1, o2)
+                    yield "hist i ref %s pm[%s;%s;push:%s]" % (hx("//h:" + p + "#f"), o1, o2, hx("z"))
+                else:
+                    yield "hist u ref %s pm[%s;%s]" % (hx(p + "?query#frag"), o1, o2)
     for p in long_paths():
         for op in ["norm", "pop", "push:" + hx("z"), "sapp:" + hx("../y"), "norm;pop;norm"]:
             yield "hist u path %s pm[%s]" % (hx(p), op)
@@ -615,11 +629,11 @@ def stream_authmut(rng, tier):
 def stream_resolve(rng, tier):
     """C06"""
     bases = ["s:", "s:a", "s:a/b", "s:/", "s:/a/b", "s://h", "s://h/", "s://h/a/b", "s://h/a/b/",
-             "s:a/../b", "s:/a//b", "s://h/a/./b/../c", "s:?q", "s://h?q#f", "s:a/b?q",
+             "s:a/../b", "s:/a//b", "s://h//a/b?q", "s://h/a/./b/../c", "s:?q", "s://h?q#f", "s:a/b?q", "s://h///x", "s://h:/a",
              "http://a/b/c/d;p?q", "s:..", "s:../x", "s://h/..", "s:/.//a", "s:a/"]
     k = 4 if tier == "quick" else 6
     for r in exhaustive("a/.:?#", k):
-        for b in bases if tier == "thorough" else bases[:12]:
+        for b in bases if tier == "thorough" else bases[:13]:
             yield "resolve u %s %s" % (hx(b), hx(r))
     for r in exhaustive("a/.", 4 if tier == "quick" else 5):
         for b in ["s://h/a/b", "s:a/b", "s:/a"]:
@@ -672,7 +686,13 @@ def stream_cmp(rng, tier):
         for b in paths:
             yield "cmp u path %s %s" % (hx(a), hx(b))
     auths = ["h", "H", "%68", "u@h", "@h", "h:", "h:1", "h:01", "u:p@h:1", "[::1]", "[::1]:1", "",
-             "%FF@h", "u@%FF"]
+             "%FF@h", "u@%FF", "[::A]", "[::a]", "[v1.Ab]", "[v1.aB]", "U@h", "u@H", "h:1A", "[2001:DB8::1]", "[2001:db8::1]"]
+    for a in ["[::A]", "[::a]", "[v1.Ab]", "[v1.aB]", "[::FFFF:1.2.3.4]", "[::ffff:1.2.3.4]", "ExAmple", "example", "%45xample"]:
+        for b in ["[::A]", "[::a]", "[v1.Ab]", "[v1.aB]", "[::FFFF:1.2.3.4]", "[::ffff:1.2.3.4]", "ExAmple", "example", "%45xample"]:
+            for f in "ui":
+                yield "cmp %s host %s %s" % (f, hx(a), hx(b))
+                yield "cmp %s full %s %s" % (f, hx("s://" + a + "/p?q#f"), hx("s://" + b + "/p?q#f"))
+                yield "cross %s %s %s" % (f, hx("s://" + a + "/p"), hx("s://" + b + "/p"))
     for a in auths:
         for b in auths:
             yield "cmp u authority %s %s" % (hx(a), hx(b))
